@@ -1,1 +1,1 @@
-Definition gen_always_repush : bool := false.
+Definition gen_always_repush : bool := true.
